@@ -834,7 +834,10 @@ input::
                 if t is None:
                     t = cn.impose_at(*to.select_params(self,collapses[k]))
                 else:
-                    t = cn.impose_at(collapses[k],t)
+                    at = tuple(collapses[k])
+                    if hasattr(t, '__len__'): # select targets of collapsed
+                        t = tuple(t[i] for i in at)
+                    t = cn.impose_at(at,t)
                 conditions.append(t)
             elif k.startswith('CollapseAs'):
                 t = state[k]
